@@ -204,12 +204,13 @@ class KeyType(StringType, prim='key'):
         Keys are ordered as follows: edpk < sppk < p2pk < BLpk
         All keys are in compressed form in Tezos (flag | X) where flag specifies if Y is odd or even
         https://crypto.stackexchange.com/questions/70754/ec-key-compression
-        For secp256r1 (aka p256) we need to cut the first byte (for unknown reason)
+        Keys of the same curve are compared by their whole byte representation (the flag byte included),
+        so that two different keys are never both "not less" than each other.
         """
         curves = {
             'edpk': (0, 0),
             'sppk': (1, 0),
-            'p2pk': (2, 1),
+            'p2pk': (2, 0),
             'BLpk': (3, 0),
         }
         res = curves[self.prefix][0] - curves[other.prefix][0]
